@@ -223,8 +223,11 @@ def run_execution(spec):
         for name, sp in modes.items():
             rc, out = execute(sp, os.path.join(root, name))
             status[name] = classify(rc, out)
-            if status[name] in ("crash", "hang"):
-                o.fail("execution_%s_%s" % ("crashes" if status[name] == "crash" else "hangs", name), "exit %s: %s" % (rc, out[-400:]))
+            # (an unhandled exception that every execution mode raises alike is not a repeatability matter; a hang is)
+            if status[name] == "hang":
+                o.fail("execution_hangs_%s" % name, "exit %s: %s" % (rc, out[-400:]))
+            if status[name] == "crash":
+                o.classes["crash_seen"] = out.strip().splitlines()[-1][:60] if out.strip() else "?"
             if rc == 0:
                 results[name] = collect(os.path.join(root, name))
         # one time point at a time
@@ -237,8 +240,6 @@ def run_execution(spec):
             rc, out = execute(sp, os.path.join(root, "single_%d" % t))
             stt = classify(rc, out)
             status.setdefault("single", []).append(stt)
-            if stt == "crash":
-                o.fail("execution_crashes_single", "time point %d exit %s: %s" % (t, rc, out[-400:]))
             if rc != 0:
                 ok_single = False
                 continue
@@ -255,7 +256,7 @@ def run_execution(spec):
                 o.check((status[name] == "ok") == single_ok, "execution_outcome_differs_%s_vs_one_at_a_time" % name,
                         "%s: %s, one at a time: %s" % (name, status[name], status.get("single")))
         if not single_ok and not o.violations:
-            o.inconclusive = "documented_error_in_all_modes"
+            o.inconclusive = "crash_in_all_modes" if "crash_seen" in o.classes else "documented_error_in_all_modes"
             return o
         ref = results.get("serial")
         if ref is not None:
